@@ -30,16 +30,16 @@ def np_array(ex, st, args, kwargs, node):
             # list of equal-length rows -> matrix (numpy builds a ragged object array otherwise: safety obligation)
             rows_arr, lens = v.arrs[0], v.arrs[1]
             i = _i("ri")
-            cols = z3.If(v.len > 0, z3.Select(lens, 0), z3.IntVal(0))
-            ex.safety(st, "np.array-rows-of-equal-length", ty.FA([i], z3.Implies(z3.And(i >= 0, i < v.len), z3.Select(lens, i) == cols)), node)
+            cols = z3.If(v.len > 0, ty.sel(lens, 0), z3.IntVal(0))
+            ex.safety(st, "np.array-rows-of-equal-length", ty.FA([i], z3.Implies(z3.And(i >= 0, i < v.len), ty.sel(lens, i) == cols)), node)
             arr = rows_arr
             if v.elem.elem is ty.Int:
                 j = _i("rj")
-                arr = z3.Lambda([i], z3.Lambda([j], z3.ToReal(z3.Select(z3.Select(rows_arr, i), j))))
+                arr = z3.Lambda([i], z3.Lambda([j], z3.ToReal(ty.sel(ty.sel(rows_arr, i), j))))
             return _out(ty.MatV(arr, v.len, cols), st)
         if v.elem is ty.Int:
             i = _i("ai")
-            return _out(ty.SeqV(ty.Real, [z3.Lambda([i], z3.ToReal(z3.Select(v.arrs[0], i)))], v.len), st)
+            return _out(ty.SeqV(ty.Real, [z3.Lambda([i], z3.ToReal(ty.sel(v.arrs[0], i)))], v.len), st)
         return _out(ty.SeqV(v.elem, v.arrs, v.len), st)
     raise _U(f"np.array of {v!r}", node)
 
@@ -83,7 +83,7 @@ def mat_getitem(ex, st, m, idx, node):
         if isinstance(b, slice) and not isinstance(a, slice) and b.start is None and b.stop is None:
             i = ty.to_z3num(_num(ex, st, a, node))
             ex.safety(st, "index", z3.And(i >= 0, i < m.rows), node)
-            return _out(ty.SeqV(ty.Real, [z3.Select(m.arr, i)], m.cols), st)
+            return _out(ty.SeqV(ty.Real, [ty.sel(m.arr, i)], m.cols), st)
         if isinstance(a, slice) and isinstance(b, slice) and a.start is None and a.stop is None:
             lo, hi = _slice_bounds(ex, st, b, m.cols, node)
             i, j = _i("si"), _i("sj")
@@ -91,7 +91,7 @@ def mat_getitem(ex, st, m, idx, node):
     if _isnum(idx):
         i = ty.to_z3num(_num(ex, st, idx, node))
         ex.safety(st, "index", z3.And(i >= 0, i < m.rows), node)
-        return _out(ty.SeqV(ty.Real, [z3.Select(m.arr, i)], m.cols), st)
+        return _out(ty.SeqV(ty.Real, [ty.sel(m.arr, i)], m.cols), st)
     raise _U(f"matrix index {idx!r}", node)
 
 
@@ -102,7 +102,7 @@ def mat_store(ex, st, m, idx, v, node):
         if not isinstance(a, slice) and not isinstance(b, slice):
             i, j = ty.to_z3num(_num(ex, st, a, node)), ty.to_z3num(_num(ex, st, b, node))
             ex.safety(st, "index", z3.And(i >= 0, i < m.rows, j >= 0, j < m.cols), node)
-            return ty.MatV(z3.Store(m.arr, i, z3.Store(z3.Select(m.arr, i), j, _real(ex, st, v, node))), m.rows, m.cols)
+            return ty.MatV(z3.Store(m.arr, i, z3.Store(ty.sel(m.arr, i), j, _real(ex, st, v, node))), m.rows, m.cols)
         if isinstance(a, slice) and a.start is None and a.stop is None and not isinstance(b, slice):
             j = ty.to_z3num(_num(ex, st, b, node))
             ex.safety(st, "index", z3.And(j >= 0, j < m.cols), node)
@@ -110,7 +110,7 @@ def mat_store(ex, st, m, idx, v, node):
                 raise _U("column assignment of a non-vector", node)
             ex.safety(st, "shape(column assignment)", v.len == m.rows, node)
             i, jj = _i("ci"), _i("cj")
-            return ty.MatV(z3.Lambda([i], z3.Lambda([jj], z3.If(jj == j, ty.to_real(z3.Select(v.arrs[0], i)), m.at(i, jj)))), m.rows, m.cols)
+            return ty.MatV(z3.Lambda([i], z3.Lambda([jj], z3.If(jj == j, ty.to_real(ty.sel(v.arrs[0], i)), m.at(i, jj)))), m.rows, m.cols)
         if isinstance(a, slice) and a.start is None and a.stop is None and isinstance(b, slice):
             lo, hi = _slice_bounds(ex, st, b, m.cols, node)
             if not isinstance(v, ty.MatV):
@@ -130,15 +130,15 @@ def elementwise2(ex, st, a, b, f, node):
     if isinstance(a, ty.SeqV) and isinstance(b, ty.SeqV):
         ex.safety(st, "shape(elementwise)", a.len == b.len, node)
         i = _i("ei")
-        return ty.SeqV(ty.Real, [z3.Lambda([i], f(ty.to_real(z3.Select(a.arrs[0], i)), ty.to_real(z3.Select(b.arrs[0], i))))], a.len)
+        return ty.SeqV(ty.Real, [z3.Lambda([i], f(ty.to_real(ty.sel(a.arrs[0], i)), ty.to_real(ty.sel(b.arrs[0], i))))], a.len)
     if isinstance(a, ty.SeqV):
         bb = _real(ex, st, b, node)
         i = _i("ei")
-        return ty.SeqV(ty.Real, [z3.Lambda([i], f(ty.to_real(z3.Select(a.arrs[0], i)), bb))], a.len)
+        return ty.SeqV(ty.Real, [z3.Lambda([i], f(ty.to_real(ty.sel(a.arrs[0], i)), bb))], a.len)
     if isinstance(b, ty.SeqV):
         aa = _real(ex, st, a, node)
         i = _i("ei")
-        return ty.SeqV(ty.Real, [z3.Lambda([i], f(aa, ty.to_real(z3.Select(b.arrs[0], i))))], b.len)
+        return ty.SeqV(ty.Real, [z3.Lambda([i], f(aa, ty.to_real(ty.sel(b.arrs[0], i))))], b.len)
     if isinstance(a, ty.MatV) and isinstance(b, ty.MatV):
         ex.safety(st, "shape(elementwise)", z3.And(a.rows == b.rows, a.cols == b.cols), node)
         i, j = _i("ei"), _i("ej")
@@ -168,7 +168,7 @@ def array_binop(ex, st, op, a, b, node):
 def seq_slice(ex, st, v, sl, node):
     lo, hi = _slice_bounds(ex, st, sl, v.len, node)
     i = _i("si")
-    return ty.SeqV(v.elem, [z3.Lambda([i], z3.Select(a, i + lo)) for a in v.arrs], hi - lo)
+    return ty.SeqV(v.elem, [z3.Lambda([i], ty.sel(a, i + lo)) for a in v.arrs], hi - lo)
 
 
 def seq_fancy(ex, st, cont, idx, node):
@@ -185,7 +185,7 @@ def np_sum(ex, st, args, kwargs, node):
         a = v.arrs[0]
         if v.elem is ty.Int:
             i = _i("si")
-            a = z3.Lambda([i], z3.ToReal(z3.Select(a, i)))
+            a = z3.Lambda([i], z3.ToReal(ty.sel(a, i)))
         return _out(SUM(a, v.len), st)
     raise _U(f"np.sum of {v!r}", node)
 
@@ -196,7 +196,7 @@ def np_tile(ex, st, args, kwargs, node):
         n = ty.to_z3num(_num(ex, st, reps[0], node))
         ex.safety(st, "np.tile-nonnegative-reps", n >= 0, node)
         i = _i("ti")
-        return _out(ty.MatV(z3.Lambda([i], v.arrs[0] if v.elem is ty.Real else z3.Lambda([_i("tj")], z3.ToReal(z3.Select(v.arrs[0], _i("tk"))))), n, v.len), st) \
+        return _out(ty.MatV(z3.Lambda([i], v.arrs[0] if v.elem is ty.Real else z3.Lambda([_i("tj")], z3.ToReal(ty.sel(v.arrs[0], _i("tk"))))), n, v.len), st) \
             if v.elem is ty.Real else _U("np.tile of an integer vector", node)
     raise _U(f"np.tile({v!r}, {reps!r})", node)
 
